@@ -1,34 +1,14 @@
-# Tables used by /verif/check: which world decides which property, budgets, evidence texts.
+# Loads the world tables used by /verif/check from harness/*/world.json.
+# world.json: {"name": ..., "world": {dir,pkg,test,quick,thorough,real,stubbed,...},
+#              "props": {"Cxx": {level, rule, assumptions, [quick], [thorough]}}}
+import glob, json, os
 
-WORLDS = {
-    "w6_fsbinlog": {
-        "dir": "w6_fsbinlog",
-        "pkg": "internal/vkgo/binlog/fsbinlog",
-        "test": "TestVerifW6",
-        "quick": {"runs": 400, "budget_s": 45, "workers": 4},
-        "thorough": {"runs": 400000, "budget_s": 900, "workers": 16},
-        "real": ["fsbinlog.fsBinlog (Append/AppendASAP, buffer exchange, writer loop, rotation, commit)",
-                 "fsbinlog reader (ReadAll, seek by snapshot meta, crc records, read-and-exit)",
-                 "fsbinlog.ScanForFilesFromPos"],
-        "stubbed": ["disk: gofs in-memory FS + /verif fault and crash-image hooks (third_party/gofs-sim)",
-                    "clock/timers: testing/synctest fake clock", "binlog.Engine: recording engine of the harness",
-                    "pgregory.net/rand self-seeding: deterministic source (third_party/pgrand)"],
-    },
-}
-
-PROPS = {
-    "C18": {
-        "world": "w6_fsbinlog",
-        "level": "exploration",
-        "rule": ("each evaluation is one seeded simulated run: 1-4 master lifetimes of fsbinlog on a simulated disk with drawn chunk "
-                 "size, memory limit, write delay, append sizes, time steps, and (in 2/3 of runs) one fault per lifetime: crash before "
-                 "the k-th write/fsync, torn write, write error, short write, ENOSPC, fsync error, crash at a quiescent instant; each "
-                 "crash yields an image under a drawn policy (process kill, synced-only, cut tail at byte, zero-filled tail, new file "
-                 "missing) that is replayed and checked. distinct_nontrivial counts distinct schedule signatures (hash of the sequence "
-                 "of scheduler actions) among runs in which a fault fired or two actors interleaved."),
-        "assumptions": ["the VKCOM/tl generated TL code and Go runtime are trusted",
-                        "disk model: a file's content is durable up to its last successful fsync; a file that was fsynced at least once exists after power loss (directory entries are not modelled separately)",
-                        "replica (endless) mode is not simulated: it depends on fsnotify on the real file system",
-                        "bit flips are injected only into event bodies (a flip in a length field makes the *engine* consume the tail, which the statement does not cover)"],
-    },
-}
+HERE = os.path.dirname(os.path.abspath(__file__))
+WORLDS, PROPS = {}, {}
+for path in sorted(glob.glob(os.path.join(HERE, "*", "world.json"))):
+    d = json.load(open(path))
+    WORLDS[d["name"]] = d["world"]
+    for pid, meta in d["props"].items():
+        meta = dict(meta)
+        meta["world"] = d["name"]
+        PROPS[pid] = meta
